@@ -872,7 +872,8 @@ class PPtr(object):
     def __add__(self, n):
         # (struct T *)p + 1: the memory directly behind an allocated object (EVBUFFER_CHAIN_EXTRA): objects allocated during evaluation have ids ("n", k)
         # and own the address range starting at HEAP_BASE * (20 + k)
-        if isinstance(n, int) and n == 1 and isinstance(self.id, tuple) and self.id[0] == "n":
+        if isinstance(n, int) and n >= 1 and isinstance(self.id, tuple) and self.id[0] == "n":
+            # +1 on the typed pointer, or +sizeof(header) on a byte pointer: both designate the first byte behind the header
             return HEAP_BASE * (20 + self.id[1])
         raise EvalError("pointer arithmetic on abstract object %r" % (self.id,))
     __radd__ = __add__
